@@ -1096,6 +1096,9 @@ fn subjects(th: bool) -> Vec<SubjDesc> {
         // very sparse / very dense long vectors: the select searches cross many blocks between two samples
         BitGen::Pat { n: 600_000, pat: BitPat::OnePer(65537) },
         BitGen::Pat { n: 600_000, pat: BitPat::ZeroPer(65537) },
+        // more than one select-hint period of ones (8192) at density 1/9: one hint range spans > 16 RSWide superblocks
+        // and ends inside the directory (round 6, seed C18-15)
+        BitGen::Pat { n: 150_000, pat: BitPat::OnePer(9) },
     ];
     for g in &bitgens {
         for ty in ["RSNarrow", "RSWide"] {
